@@ -35,7 +35,9 @@ THEOREMS = ["C14_history_independent_1d", "C14_history_independent_2d", "C14_his
             "C14_cubic_stability_any_nodes", "C14_error_bound_from_taylor_1d", "C14_error_bound_from_taylor_2d",
             "C14_error_bound_from_taylor_3d", "C14_tensor_cubic_solves_the_2d_system", "C14_tensor_cubic_solves_the_3d_system",
             "C14_2d_system_has_one_solution", "C14_3d_system_has_one_solution",
-            "C14_stored_block_is_that_polynomial_2d", "C14_stored_block_is_that_polynomial_3d"]
+            "C14_stored_block_is_that_polynomial_2d", "C14_stored_block_is_that_polynomial_3d",
+            "C14_denormalised_evaluation_2d", "C14_denormalised_evaluation_3d", "C14_farorigin_cancellation",
+            "C14_taylor_inequality_R", "C14_error_bound_C2_1d", "C14_error_bound_C2_2d", "C14_error_bound_C2_3d"]
 
 EPS = 1.e-7
 VAL_TOL = 1e-9          # search: relative to the scale of the function, polynomial wrapped functions
@@ -59,7 +61,11 @@ def guess_axis(lo, hi, delta):
     return np.concatenate((np.array([lo - delta]), np.linspace(lo - EPS, hi + EPS, n), np.array([hi + delta])))
 
 
-def gen_axis(rng, dim, quick, exact):
+RES_SCHEDULE = ["frac", "coarse", "multiple", "frac", "multiple+ulp", "int", "multiple-ulp", "coarse"]
+_SCHED = {1: 0, 2: 0, 3: 0}      # per dimension: number of objects generated so far in this run (reset by run())
+
+
+def gen_axis(rng, dim, quick, exact, force=None):
     """-> (lo, hi, delta, resolution class).  Resolution classes: 'frac' (area extent not a multiple of the
     resolution), 'coarse' (resolution >= extent: the max(.., 2) branch, one cell), 'multiple' (extent an exact
     multiple of the resolution: int() of an exact integer), 'multiple+ulp' / 'multiple-ulp' (one ulp either side of
@@ -69,7 +75,7 @@ def gen_axis(rng, dim, quick, exact):
              3: [1, 2, 3, 4] + ([] if quick else [6, 9])}[dim]
     m = rng.choice(cells)
     if exact:
-        rcls = rng.choice(["frac", "frac", "frac", "coarse", "multiple", "multiple+ulp", "multiple-ulp", "int"])
+        rcls = force or rng.choice(["frac", "frac", "frac", "coarse", "multiple", "multiple+ulp", "multiple-ulp", "int"])
         lo = rng.choice([dyadic(rng, -8, 8, 3), dyadic(rng, -8, 8, 3), 0.0, -0.0])
         width = dyadic(rng, 0.5, 6, 3)
         if rng.random() < 0.1:
@@ -94,7 +100,10 @@ def gen_axis(rng, dim, quick, exact):
         rcls = "random"
         lo = rng.uniform(-8, 8)
         hi = lo + rng.uniform(0.5, 6)
-        delta = (hi - lo) / m * rng.uniform(0.55, 1.0) if rng.random() < 0.8 else (hi - lo) * rng.uniform(1.0, 2.0)
+        if force == "coarse" or rng.random() >= 0.8:
+            rcls, delta = "random-coarse", (hi - lo) * rng.uniform(1.0, 2.0)
+        else:
+            delta = (hi - lo) / m * rng.uniform(0.55, 1.0)
     return lo, hi, delta, rcls
 
 
@@ -215,7 +224,10 @@ def gen_forms(rng, case):
 
 
 def gen_case(rng, cid, dim, quick, exact, smooth=False, far_origin=False):
-    axes0 = [gen_axis(rng, dim, quick, exact) for _ in range(dim)]
+    # resolution classes are scheduled, not drawn: over the objects of one dimension every class occurs on every axis
+    n = _SCHED[dim]
+    _SCHED[dim] += 1
+    axes0 = [gen_axis(rng, dim, quick, exact, force=RES_SCHEDULE[(n + 3 * a) % len(RES_SCHEDULE)]) for a in range(dim)]
     # scale classes: coordinates by 2^k per axis, values by 2^m (the property is covariant under both; the
     # absolute EPSILON = 1e-7 of the code is not, so small scales also stress the padding of the grid)
     scls = rng.choice(["unit", "unit", "coord", "value", "both"]) if exact and not smooth else "unit"
@@ -705,6 +717,10 @@ def new_stats():
 def run(ctx):
     ctx.trusted += [
         "Coq 8.16.1 kernel, vm_compute (no native_compute)",
+        "standard-library classical reals + Coquelicot (only under the four theorems over R: C14_taylor_inequality_R, "
+        "C14_error_bound_C2_{1d,2d,3d}): ClassicalDedekindReals.sig_forall_dec, ClassicalDedekindReals.sig_not_dec, "
+        "Classical_Prop.classic, FunctionalExtensionality.functional_extensionality_dep; every other C14 theorem is closed "
+        "under the global context",
         "harness/c14.py + harness/c14_impl.py: generators, recording wrapper around the wrapped function, "
         "exact Q literal printer, mapping of call arguments to node indices, comparator Model/C14_Check.v",
         "numpy.linalg.solve (LAPACK), numpy.linspace and IEEE double rounding: the model is exact, values are compared "
@@ -737,6 +753,8 @@ def run(ctx):
     ctx.log("translator:", json.dumps(tinfo)[:200])
     rng = ctx.rng
     quick = ctx.quick
+    for k in _SCHED:
+        _SCHED[k] = 0
     # ---- replay ---------------------------------------------------------------------------------
     if ctx.replay:
         obj = json.load(open(ctx.replay))
@@ -761,15 +779,15 @@ def run(ctx):
                 cases.append(c)
     n_corpus = len(cases)
     # ---- generated cases --------------------------------------------------------------------------
-    n_hist = {1: 70, 2: 28, 3: 10} if quick else {1: 1200, 2: 600, 3: 160}
-    n_ctor = 24 if quick else 200
-    n_smooth = {1: 30, 2: 20, 3: 10} if quick else {1: 400, 2: 300, 3: 100}
+    n_hist = {1: 48, 2: 18, 3: 7} if quick else {1: 1200, 2: 600, 3: 160}
+    n_ctor = 18 if quick else 200
+    n_smooth = {1: 20, 2: 14, 3: 8} if quick else {1: 400, 2: 300, 3: 100}
     for dim in (1, 2, 3):
         for i in range(n_hist[dim]):
             cases.append(gen_case(rng, len(cases), dim, quick, exact=(i % 4 != 3)))
     for i in range(n_ctor):
         cases.append(gen_ctor_case(rng, len(cases), 1 + i % 3))
-    for i in range(12 if quick else 200):
+    for i in range(8 if quick else 200):
         cases.append(gen_find_case(rng, len(cases)))
     n_coq_cases = len(cases)
     for i in range(6 if quick else 60):
@@ -998,11 +1016,12 @@ def run(ctx):
                                        "(numerical conditioning of the code's solve + monomial basis, measured)" % (VAL_TOL, SMOOTH_TOL), "error bound (search)": "%g * h^2 * sum max|d_a d_b f|" % ERR_MULT},
         "measured": {k: v for k, v in stats.items() if k.startswith("max_")},
         "regenerated_from_source": tinfo,
-        "partial": ["error bound for twice-differentiable functions: proved for every cell, 1-D/2-D/3-D, from Taylor's inequality at the "
-                    "evaluation point as a hypothesis (|v - f| <= 3 Mx Hx^2 + 9/2 My Hy^2 + 27/4 Mz Hz^2); Taylor's theorem itself (reals) is "
-                    "not proved (the bound is also checked numerically by the search)",
-                    "2-D/3-D: the tensor-product cubic is proved to be the unique solution of the 16x16 / 64x64 systems whose rows and "
-                    "right-hand sides are regenerated from the source; that LAPACK returns it up to rounding is tied by values"],
+        "partial": ["none of the property's clauses is left with an unproved hypothesis: the error bound is a theorem over R for twice "
+                    "differentiable functions (Coquelicot's Taylor_Lagrange; classical-reals assumptions named in trusted_base); the "
+                    "uniform-cell theorem C14_error_bound_partial keeps its name for continuity",
+                    "tied by values, not by theorem: that numpy.linalg.solve returns the (proved unique) solution of the 4x4/16x16/64x64 "
+                    "systems up to rounding, and IEEE rounding of the implementation's arithmetic (see tolerance)",
+                    "known finding c14-farorigin: explained by theorem C14_farorigin_cancellation (error grows with (|x0|/h)^3), not fixed"],
     })
     samples = []
     for c, o in (nt[:1] + [(c, o) for c, o in zip(cases, outs) if c["dim"] == 2 and c["pts"]][:1]):
